@@ -60,7 +60,9 @@ POOL = ['0', '1', '2', '3', '9', '10', '11', '100', '-1', '1.0', '01',
         'V', 'V1', 'V2', 'Vs', 'Vq', 'Uq', 'v', 'U',
         'I', 'I1', 'I2', 'Is', 'Iq', 'i',
         'L', 'L1', 'L2', 'L10', 'l', 'C1', 'C2', 'C10',
-        'gnd', 'GND', 'n', 'N1', 'Ω', 'ü', 'φ', 'µ', '节', 'Z_L', 'in', 'out', 'None', 'nan', 'inf']
+        'gnd', 'GND', 'n', 'N1', 'Ω', 'ü', 'φ', 'µ', '节', 'Z_L', 'in', 'out', 'None', 'nan', 'inf',
+        # families whose natural (numeric) order differs from their string order, and ids that are substrings of others
+        'V10', 'U9', 'U10', 'L3', 'L12', 'R9', 'Is2', 'Is10', 'Iq10', 'Vs1', 'Vs10', 'C', 'Ra', 'Rab', 's1', 'Rs1', 'x', 'x1', 'x10']
 
 _text = st.text(alphabet=st.sampled_from(list('abcxyzABCXYZ0123456789_-. ') + ['ä', 'Ω', 'é', '中']), min_size=1, max_size=4)
 label = st.one_of(st.sampled_from(POOL), st.sampled_from(POOL), _text)
